@@ -100,8 +100,10 @@ def h_stream_next(I, st, fr):
         sc = s.d['script']; pos = s.d['pos']; chunks = sc['chunks']
         if pos >= len(chunks):
             if sc.get('endless'):
-                # an N+1-th chunk stands for "the server never stops": reaching it means the client kept reading
+                # the server never stops: whatever is read past the provisioned chunks is more data than any bound allows
                 st.events.append(('endless_read', s.d['url']))
+                ln = z3.BitVecVal(2**63, 64); st.events.append(('chunk_len', ln))
+                I.do_return(st, mk_some(mk_ok(Obj('bytes', len=ln, content=z3.BitVec(fresh_name('endless'), 16))))); return [st]
             I.do_return(st, mk_none()); return [st]
         exists, is_err, ln, content = chunks[pos]
         out = []
